@@ -310,4 +310,30 @@ CLAIMS = {
                 "pairing).",
         "note": _TB,
     },
+    "C10": {
+        "level": "other",
+        "technique": "dispatch-table exhaustiveness and DTD agreement "
+                     "(folded tables) + decision-table cross-check of the "
+                     "SAX callbacks, rule-enforcing parser methods and "
+                     "info-layer guards + exception-escape analysis of "
+                     "schema loading",
+        "text": "Decides the enforcement side of the schema rules: every "
+                "handled/cdata tag has its methods and a nesting-table "
+                "entry; the nesting table equals the DTD's content models up "
+                "to four triaged discrepancies; unknown tag, misplaced "
+                "element, wrong document element and stray text are refused "
+                "before dispatch; each listed rule (required+default, "
+                "multikey default attribute, multisection names, '*' key, "
+                "wildcard without attribute, missing name/type, "
+                "extends-abstract, implements-concrete, reserved prefix, "
+                "'required' values, unknown type, unique names/attributes/"
+                "types, keyed-iff-wildcard defaults, default-key collisions "
+                "after normalisation) is a raise preceding the constructive "
+                "effect, in decision tables equal to a parsed reference; only "
+                "SchemaError-family exceptions leave schema loading from the "
+                "schema/info/registry layer and parser errors carry the "
+                "locator.  Does not decide that every rule-satisfying "
+                "document is accepted.",
+        "note": _TB,
+    },
 }
